@@ -61,7 +61,10 @@ store == <<blob, active, slots, nextId, usedIds, quar, worker, agedIds>>
 None == -1
 Hole == -1
 
-Rec(k, ts, del, m, v, sz) == [k |-> k, ts |-> ts, del |-> del, m |-> m, v |-> v, sz |-> sz]
+\* hid: the bytes are in the blob file but the record was never indexed (an operation whose
+\* future was dropped after its write was handed to a blocking thread, C14); such a record is
+\* invisible until a start-up rebuilds the index of its blob from the file
+Rec(k, ts, del, m, v, sz) == [k |-> k, ts |-> ts, del |-> del, m |-> m, v |-> v, sz |-> sz, hid |-> FALSE]
 EmptyMemv == [k \in Keys |-> <<>>]
 NewBlob   == [recs |-> <<>>, idx |-> "mem", memv |-> EmptyMemv, ifcnt |-> -1]
 
@@ -84,7 +87,7 @@ Live    == LiveOf(active, slots)
 
 \* addresses <<blob id, position>> of the records of key k in blob function bl over live set lv
 AddrIn(bl, lv, k) ==
-  UNION {{<<b, i>> : i \in {i \in DOMAIN bl[b].recs : bl[b].recs[i].k = k}} : b \in lv}
+  UNION {{<<b, i>> : i \in {i \in DOMAIN bl[b].recs : bl[b].recs[i].k = k /\ ~bl[b].recs[i].hid}} : b \in lv}
 RIn(bl, a) == bl[a[1]].recs[a[2]]
 
 \* rank: greatest timestamp, then most recently created blob, then most recently appended
@@ -172,6 +175,7 @@ AppendResults(bv, r) ==
 RECURSIVE RegenFrom(_, _, _)
 RegenFrom(recs, i, mv) ==
   IF i > Len(recs) THEN mv
+  ELSE IF recs[i].hid THEN RegenFrom(recs, i + 1, mv)
   ELSE LET k  == recs[i].k
            nv == CHOOSE x \in PushResults(recs, mv[k], i, recs[i].ts) : TRUE
        IN  RegenFrom(recs, i + 1, [mv EXCEPT ![k] = nv])
@@ -517,9 +521,11 @@ DumpIdx(b) ==
 \* dmg: per blob id one of "keep" | "lose" (removed, truncated, header only, written flag
 \* clear: anything that fails validation) | "stale" (a complete index of a shorter blob)
 \* The index file is a cache: whatever dmg is, Open regenerates what is not valid.
-RestartL(graceful, lazy, dmg, label) ==
+\* blobIn: the files as they are when the session ends (= blob, except in trace validation
+\* where records hidden by a dropped future may be revealed by the start-up)
+RestartLB(blobIn, graceful, lazy, dmg, label) ==
   LET \* Storage::close dumps the active blob
-      bl0 == IF graceful /\ active # None THEN DumpAllIn(blob, {active}) ELSE blob
+      bl0 == IF graceful /\ active # None THEN DumpAllIn(blobIn, {active}) ELSE blobIn
       \* files as found by Open
       bl1 == [b \in DOMAIN bl0 |->
                 IF dmg[b] = "keep" THEN bl0[b]
@@ -556,6 +562,7 @@ RestartL(graceful, lazy, dmg, label) ==
   /\ agedIds' = {}
   /\ UNCHANGED <<quar, opn>>
 
+RestartL(graceful, lazy, dmg, label) == RestartLB(blob, graceful, lazy, dmg, label)
 Restart(graceful, lazy, dmg) == RestartL(graceful, lazy, dmg, "")
 
 \* Restart during which the file of blob `victim` is found unreadable (truncated inside a
